@@ -14,11 +14,20 @@ def byte_seq(bs):
     return Seq(bs, 'bytes')
 
 
+SYMBOLIC_ALLOC_FORK = 64
+
+
 def conc_len(it, n, what):
-    """allocation sizes: concrete, or concretised by forking inside a small bound"""
+    """allocation sizes: concrete, or concretised by forking over the feasible values inside a small bound"""
     if n.conc:
         return n.v
-    raise Inconclusive('%s with symbolic size needs the array+length byte model' % what)
+    z = n.z()
+    conds = [z == z3.BitVecVal(v, n.w) for v in range(SYMBOLIC_ALLOC_FORK + 1)]
+    conds.append(z3.UGT(z, z3.BitVecVal(SYMBOLIC_ALLOC_FORK, n.w)))
+    k = it.choose(len(conds), conds)
+    if k > SYMBOLIC_ALLOC_FORK:
+        raise Inconclusive('%s with a symbolic size that may exceed %d bytes (needs the array+length byte model)' % (what, SYMBOLIC_ALLOC_FORK))
+    return k
 
 
 def m_zeroed(it, a, ty, callee):
